@@ -594,6 +594,8 @@ Fixpoint lookup_tbl (c : byte) (m : list (byte * option byte)) : option (option 
 (* str.translate with such a table: None deletes, unmapped characters are kept *)
 Definition translate_tbl (d : str) (m : list (byte * option byte)) : str :=
   flat_map (fun c => match lookup_tbl c m with Some (Some b) => [b] | Some None => [] | None => [c] end) d.
+Definition nonws (c : byte) : bool := negb (is_ws c).
+Definition nonlb (c : byte) : bool := negb (is_linebreak c).
 (* startswith / endswith with a tuple of candidates *)
 Definition py_startswith_any (s : str) (ps : list str) (a b : option Z) : bool := existsb (fun p => py_startswith s p a b) ps.
 Definition py_endswith_any (s : str) (ps : list str) (a b : option Z) : bool := existsb (fun p => py_endswith s p a b) ps.
@@ -877,6 +879,10 @@ Definition seq_getitem_type (gap : option str) (s : bioseq) (fts : list (option 
   end.
 Definition ft_wf (f : option str * (Z * Z)) : bool :=
   (match fst f with None => true | Some t => all_ascii t end) && (0 <=? fst (snd f)) && (fst (snd f) <? snd (snd f)).
+
+(* "gap-aware slicing selects the same residues as slicing the degapped string", as a proposition about one call *)
+Definition gap_slice_same_residues (g : str) (s : bioseq) (sl : pyslice) : Prop :=
+  exists r, seq_getitem (Some g) s (ISlice sl) = Ok r /\ pyget (degap g (data s)) (ISlice sl) = Ok (degap g (data r)).
 
 (* ---- harness ---- *)
 Inductive op :=
